@@ -10,3 +10,4 @@ import Gomjml.Props.C14
 #print axioms Gomjml.Props.C14.C14_setInterval_first
 #print axioms Gomjml.Props.C14.C14_ttl_then_interval
 #print axioms Gomjml.Props.C14.C14_time_comparisons
+#print axioms Gomjml.Props.C14.C14_expiry_expression
